@@ -232,7 +232,7 @@ fn fast_parser_sound(fresh: bool) {
     core::mem::forget(enc);
 }
 
-//@ {"replay":"model","name":"c01i_fast_parser_sound_fresh","tier":"thorough","props":["C01","C15","C13"],"obligation":"C01-I","stubbing":true,"timeout":7200,"mem_gb":13,"functions":["enc::encoder_fast::FastEncoderMode::get_next_symbol","enc::encoder::LZMAEncoder::find_matches","enc::encoder::LZMAEncoder::skip","lz::lz_encoder::LZEncoderData::get_match_len","lz::lz_encoder::LZEncoderData::verify_matches","lz::extend_match"],"bounds":"12-byte window with arbitrary content, symbol start 1..=7 (at least 4 bytes of look-ahead), nice_len 5, any reps inside the window, up to 2 arbitrary contract-conforming matches per match-finder call (2 calls); entry without look-ahead left over (the parser calls the match finder itself); unwind 14","assumes":["match finder contract (true, maximal, strictly increasing matches inside the window: c01h_*)","rep distances inside the window"],"stubs":["LZEncoder::find_matches / LZEncoder::skip -> environment stubs","lz::extend_match -> its byte-loop specification (equivalence: c14a_extend_match_spec)"]}
+//@ {"replay":"model","name":"c01i_fast_parser_sound_fresh","props":["C01","C15","C13"],"obligation":"C01-I","stubbing":true,"timeout":7200,"mem_gb":13,"functions":["enc::encoder_fast::FastEncoderMode::get_next_symbol","enc::encoder::LZMAEncoder::find_matches","enc::encoder::LZMAEncoder::skip","lz::lz_encoder::LZEncoderData::get_match_len","lz::lz_encoder::LZEncoderData::verify_matches","lz::extend_match"],"bounds":"12-byte window with arbitrary content, symbol start 1..=7 (at least 4 bytes of look-ahead), nice_len 5, any reps inside the window, up to 2 arbitrary contract-conforming matches per match-finder call (2 calls); entry without look-ahead left over (the parser calls the match finder itself); unwind 14","assumes":["match finder contract (true, maximal, strictly increasing matches inside the window: c01h_*)","rep distances inside the window"],"stubs":["LZEncoder::find_matches / LZEncoder::skip -> environment stubs","lz::extend_match -> its byte-loop specification (equivalence: c14a_extend_match_spec)"]}
 #[kani::proof]
 #[kani::unwind(14)]
 #[kani::stub(crate::lz::lz_encoder::LZEncoder::find_matches, stub_find_matches)]
@@ -242,7 +242,7 @@ fn c01i_fast_parser_sound_fresh() {
     fast_parser_sound(true);
 }
 
-//@ {"replay":"model","name":"c01i_fast_parser_sound_lookahead","wip":true,"tier":"thorough","props":["C01","C15","C13"],"obligation":"C01-I","stubbing":true,"timeout":7200,"mem_gb":13,"functions":["enc::encoder_fast::FastEncoderMode::get_next_symbol"],"bounds":"as c01i_fast_parser_sound_fresh, entered with the matches of the current position left by the previous call's look-ahead (read_ahead = 0)","assumes":["match finder contract (c01h_*)","rep distances inside the window"],"stubs":["LZEncoder::find_matches / LZEncoder::skip -> environment stubs","lz::extend_match -> its byte-loop specification (equivalence: c14a_extend_match_spec)"]}
+//@ {"replay":"model","name":"c01i_fast_parser_sound_lookahead","props":["C01","C15","C13"],"obligation":"C01-I","stubbing":true,"timeout":7200,"mem_gb":13,"functions":["enc::encoder_fast::FastEncoderMode::get_next_symbol"],"bounds":"as c01i_fast_parser_sound_fresh, entered with the matches of the current position left by the previous call's look-ahead (read_ahead = 0)","assumes":["match finder contract (c01h_*)","rep distances inside the window"],"stubs":["LZEncoder::find_matches / LZEncoder::skip -> environment stubs","lz::extend_match -> its byte-loop specification (equivalence: c14a_extend_match_spec)"]}
 #[kani::proof]
 #[kani::unwind(14)]
 #[kani::stub(crate::lz::lz_encoder::LZEncoder::find_matches, stub_find_matches)]
